@@ -798,6 +798,11 @@ func (c *compiler) evalCallExpression(node *ast.CallExpression) (interface{}, er
 	if rt.Kind() != reflect.Func {
 		return nil, fmt.Errorf("%+v (%T) is an invalid function", node.String(), rt)
 	}
+
+	if rv.IsNil() {
+		return nil, fmt.Errorf("%+v is a nil function (%s)", node.String(), rt)
+	}
+
 	rtNumIn := rt.NumIn()
 	isVariadic := rt.IsVariadic()
 	args := []reflect.Value{}
